@@ -6,6 +6,12 @@
 (* TLC checks that the contract predicates of ListBoxOps hold in every reachable state, i.e.   *)
 (* that the contract is satisfiable under all histories, and refutes a placement that does     *)
 (* not re-fill from the top after deletions (Bad = "noRefill").                                 *)
+(* The box may have zero rows (it then shows nothing, whatever is requested meanwhile, and      *)
+(* recovers when rows come back).  Items are also removed through negative indices (pop(),      *)
+(* del w[-k]): Bad = "negIndexSlice" is the bookkeeping that takes the removed range of index   *)
+(* -1 for slice(-1, 0), i.e. empty, and leaves the focus past the end of the list -- refuted.   *)
+(* Bad = "endAtEmpty" is the placement that takes an item of zero rows above the focus for the  *)
+(* top of the list when it fills the box upwards -- refuted (blank rows while items are hidden). *)
 EXTENDS ListBoxOps
 
 CONSTANTS MaxItems, Heights, MaxH, Depth, Bad
@@ -27,10 +33,14 @@ Place(hs, f, t, hh) ==
             ELSE IF fr - 1 < t1 THEN fr - 1
             ELSE IF fr - 1 >= t1 + hh THEN fr - hh
             ELSE t1
-  IN IF Bad = "noRefill" THEN Max2(0, t2) ELSE Max2(0, Min2(t2, Max2(maxtop, 0)))
+      \* rows lying above the nearest zero-row item over the focus (0 when there is none)
+      empties == {i \in 1..Len(hs) : i <= f /\ hs[i] = 0}
+      above == IF Bad = "endAtEmpty" /\ f >= 0 /\ f < Len(hs) /\ empties # {}
+               THEN Total(SubSeq(hs, 1, CHOOSE i \in empties : \A j \in empties : j <= i)) ELSE 0
+  IN IF Bad = "noRefill" THEN Max2(0, t2) ELSE Max2(above, Max2(0, Min2(t2, Max2(maxtop, 0))))
 
 Seqs == UNION {[1..k -> Heights] : k \in 0..MaxItems}
-Init == /\ heights \in Seqs /\ h \in 1..MaxH
+Init == /\ heights \in Seqs /\ h \in 0..MaxH
         /\ focus = IF heights = <<>> THEN -1 ELSE 0
         /\ top = 0 /\ n = 0 /\ last = "init"
 
@@ -43,16 +53,24 @@ Next ==
      \/ (focus > 0 /\ Act("up", heights, focus - 1, top, h))
      \/ (\E f \in 0..(Len(heights) - 1) : Act("set_focus", heights, f, top, h))
      \/ (\E t \in 0..Total(heights) : Act("scroll", heights, focus, t, h))
-     \/ (\E hh \in 1..MaxH : Act("resize", heights, focus, top, hh))
+     \/ (\E hh \in 0..MaxH : Act("resize", heights, focus, top, hh))
      \/ (Len(heights) > 0 /\ \E i \in 1..Len(heights) :
             LET hs == SubSeq(heights, 1, i - 1) \o SubSeq(heights, i + 1, Len(heights))
                 f == IF hs = <<>> THEN -1 ELSE IF focus >= i THEN Max2(focus - 1, 0) ELSE Min2(focus, Len(hs) - 1)
             IN Act("delete", hs, f, top, h))
+     \* the same removal addressed from the end: pop() = pop(-1), del w[-k], k = 1..Len
+     \/ (Len(heights) > 0 /\ \E k \in 1..Len(heights) :
+            LET i == Len(heights) - k + 1
+                hs == SubSeq(heights, 1, i - 1) \o SubSeq(heights, i + 1, Len(heights))
+                f == IF hs = <<>> THEN -1
+                     ELSE IF Bad = "negIndexSlice" /\ k = 1 THEN focus       \* "nothing removed": the focus index is kept
+                     ELSE IF focus >= i THEN Max2(focus - 1, 0) ELSE Min2(focus, Len(hs) - 1)
+            IN Act("delete_from_end", hs, f, top, h))
      \/ (Len(heights) < MaxItems /\ \E i \in 0..Len(heights), x \in Heights :
             LET hs == SubSeq(heights, 1, i) \o <<x>> \o SubSeq(heights, i + 1, Len(heights))
                 f == IF focus < 0 THEN 0 ELSE IF i <= focus THEN focus + 1 ELSE focus
             IN Act("insert", hs, f, top, h))
 Spec == Init /\ [][Next]_vars
 
-ContractSatisfied == ViewVerdict(ViewAt(heights, top, h), heights, IF focus >= 0 /\ heights[focus + 1] > h THEN -1 ELSE focus, -1, h) = "-"
+ContractSatisfied == FocusIsItem(focus, heights) /\ ViewVerdict(ViewAt(heights, top, h), heights, IF focus >= 0 /\ heights[focus + 1] > h THEN -1 ELSE focus, -1, h) = "-"
 ==================================================================================
